@@ -307,8 +307,38 @@ def c17_g(ctx: Ctx):
 def c17_h(ctx: Ctx):
     """The tree of existing view paths distinguishes directories by their exact names; paths inside the view are made relative with relpath, not by prefix length."""
     from .lints import keyed_by_parameter, no_prefix_length_slicing
-    out = keyed_by_parameter(ctx, "C17-h", [(LV + ":_Node.get_child", "self.children", "name", "directories whose names differ only in case share one node: after a value is re-spelled "
-                                             "('Alpha' -> 'alpha') the obsolete branch is coloured alive and its dangling link is never removed")])
+    why = ("directories whose names differ only in case share one node: after a value is re-spelled "
+           "('Alpha' -> 'alpha') the obsolete branch is coloured alive and its dangling link is never removed")
+    if (LV + ":_Node.get_child") in ctx.prog.funcs:
+        out = keyed_by_parameter(ctx, "C17-h", [(LV + ":_Node.get_child", "self.children", "name", why)])
+    else:
+        # the accessor was written out at its users: every look-up / insertion in a `.children` mapping is keyed by the path component itself (the loop variable
+        # that runs over the components), not by a reduced form of it
+        out = []
+        k = LV + ":_Node.get_child|keyed-by:name"
+        uses, bad = [], None
+        for fi in ctx.prog.functions_of_module(LV):
+            loopvars = {t.id for n in body_nodes(fi) if isinstance(n, ast.For) for t in ast.walk(n.target) if isinstance(t, ast.Name)}
+            for n in body_nodes(fi):
+                key = None
+                if isinstance(n, ast.Call) and isinstance(n.func, ast.Attribute) and n.func.attr in ("setdefault", "get", "pop") and n.args and canon(n.func.value).endswith(".children"):
+                    key = n.args[0]
+                elif isinstance(n, ast.Subscript) and canon(n.value).endswith(".children"):
+                    key = n.slice
+                elif isinstance(n, ast.Compare) and len(n.ops) == 1 and isinstance(n.ops[0], (ast.In, ast.NotIn)) and canon(n.comparators[0]).endswith(".children"):
+                    key = n.left
+                if key is None:
+                    continue
+                kv = common.inline_at(ctx, fi, key, n)
+                uses.append((fi, n))
+                if not (isinstance(kv, ast.Name) and (kv.id in loopvars or kv.id in fi.params)):
+                    bad = bad or (fi, n, kv)
+        if not uses:
+            out.append(ctx.inc("C17-h", None, None, "no _Node.get_child and no keyed use of a .children mapping found", construct=k))
+        elif bad:
+            out.append(ctx.viol("C17-h", bad[0], bad[1], f"`{canon(bad[1])[:50]}` keys the children of a view-tree node by `{canon(bad[2])[:40]}`, a reduced form of the path component: {why}", construct=k))
+        else:
+            out.append(ctx.ok("C17-h", uses[0][0], uses[0][1], f"{len(uses)} use(s) of a .children mapping, all keyed by the path component itself", construct=k))
     out += no_prefix_length_slicing(ctx, "C17-h", ["signac.linked_view", "signac.import_export"])
     # the existing links (the tree) and the wanted links (the colouring) are cut into components in the same way: './job' against 'job' is how a stale
     # root-level link is recognised as obsolete and replaced
